@@ -1,3 +1,8 @@
+(* RETIRED — historical record, not compiled (tools/mkproject.py does not descend into Findings/retired/).
+   F5c (adaptive Simpson symmetric in its endpoints): repaired in /repo by 09f84fe.
+   The lemmas below were kernel-checked against the translated model of the tree BEFORE those commits (pinned commit 6c216c0);
+   on the repaired tree the full-strength statements are theorems of Props/C12.v (C12_accept_1d_2d, C12_accept_from4,
+   C12_adaptive_reverse, C12_adaptive_2d_reverse). *)
 (* C12 finding F5c on the faithful (translated) model: quad_simpsons_mem scales every panel by |b - a|, so adaptive Simpson
    is SYMMETRIC in its endpoints for every integrand; reversing the interval does not negate the result.
    Witness: int_1^0 x dx = +1/2.  If this file stops compiling because the defect was repaired, the check only notes it. *)
